@@ -5,7 +5,7 @@ import json, os, glob, collections
 class Body:
     __slots__ = ("unit", "j", "key", "name", "self_name", "module", "trait", "blocks", "locals",
                  "argc", "promoted", "is_closure", "parent", "file", "line", "end_line", "types",
-                 "_cfg", "path", "crate", "trait_ref", "_transp")
+                 "_cfg", "path", "crate", "trait_ref", "_transp", "renames")
 
     def __init__(self, unit, j, key):
         self.unit = unit
@@ -30,6 +30,7 @@ class Body:
         self.crate = unit.crate
         self._cfg = None
         self._transp = None
+        self.renames = {}
 
     def ty(self, tid):
         return self.types[tid]
@@ -83,6 +84,84 @@ class Unit:
             self.bodies[k] = Body(self, b, k)
 
 
+def iter_places(obj):
+    """every MIR place dict ({"l":.., "proj":[..]}) inside a statement / terminator / operand json object"""
+    if isinstance(obj, dict):
+        if "l" in obj and "proj" in obj and isinstance(obj.get("proj"), list):
+            yield obj
+        for v in obj.values():
+            for x in iter_places(v):
+                yield x
+    elif isinstance(obj, list):
+        for v in obj:
+            for x in iter_places(v):
+                yield x
+
+
+_PINNED = None
+
+
+def pinned_names():
+    global _PINNED
+    if _PINNED is None:
+        p = os.path.join(os.path.dirname(os.path.dirname(os.path.abspath(__file__))), "spec", "names.json")
+        try:
+            _PINNED = json.load(open(p)) if not os.environ.get("VERIF_NO_NAME_PINNING") else {}
+        except (OSError, ValueError):
+            _PINNED = {}
+    return _PINNED
+
+
+def pin_names(body):
+    """rename parameters (by position), named locals (by rank among the named locals of the same type) and closure
+    captures (by index) of `body` to the vocabulary of engine/spec/names.json - see tools/gen_names.py"""
+    ent = pinned_names().get(body.key)
+    if not ent:
+        return
+    cur = [(i, body.ty(l["ty"])["s"], l["name"]) for i, l in enumerate(body.locals) if l.get("name")]
+    pin = [tuple(x) for x in ent["locals"]]
+    # parameters by position
+    if ent.get("argc") == body.argc:
+        pp = {i: n for (i, t, n) in pin if 1 <= i <= body.argc}
+        for (i, t, n) in cur:
+            if 1 <= i <= body.argc and i in pp:
+                if body.locals[i]["name"] != pp[i]:
+                    body.renames[body.locals[i]["name"]] = pp[i]
+                body.locals[i]["name"] = pp[i]
+    # other named locals: by rank within their type, when the counts agree
+    by_t_cur, by_t_pin = {}, {}
+    for (i, t, n) in cur:
+        if i > body.argc:
+            by_t_cur.setdefault(t, []).append(i)
+    for (i, t, n) in pin:
+        if i > ent.get("argc", 0):
+            by_t_pin.setdefault(t, []).append(n)
+    for t, idxs in by_t_cur.items():
+        names = by_t_pin.get(t)
+        if names and len(names) == len(idxs):
+            for i, n in zip(idxs, names):
+                if body.locals[i]["name"] != n:
+                    body.renames[body.locals[i]["name"]] = n
+                body.locals[i]["name"] = n
+    # closure captures by index
+    caps = {i: n for (i, n) in (tuple(x) for x in ent.get("captures", []))}
+    if body.is_closure and caps:
+        cur_caps = set()
+        for blk in body.blocks:
+            for p in iter_places(blk):
+                if p["l"] == 1:
+                    for e in p["proj"][:2]:
+                        if e[0] == "field" and isinstance(e[2], str) and not e[2].isdigit():
+                            cur_caps.add((e[1], e[2]))
+        if len({i for i, _ in cur_caps}) == len(caps) or {i for i, _ in cur_caps} <= set(caps):
+            for blk in body.blocks:
+                for p in iter_places(blk):
+                    if p["l"] == 1:
+                        for e in p["proj"][:2]:
+                            if e[0] == "field" and isinstance(e[2], str) and not e[2].isdigit() and e[1] in caps:
+                                e[2] = caps[e[1]]
+
+
 class Program:
     """All units of one configuration. Bodies are addressed by key; the statime-linux binary crate
     is also called `statime`, so its keys are prefixed with `bin:`."""
@@ -107,6 +186,23 @@ class Program:
                     kk = "%s:%s" % (u.kind, k)
                     b.key = kk
                 self.bodies[kk] = b
+        for b in list(self.bodies.values()):
+            try:
+                pin_names(b)
+            except Exception:
+                pass
+        # the field names of closure aggregates in the parents follow the closures' (pinned) capture names
+        pn = pinned_names()
+        for b in self.bodies.values():
+            for blk in b.blocks:
+                for st in blk["stmts"]:
+                    r = st.get("r") if isinstance(st, dict) else None
+                    if r and r.get("k") == "agg" and r.get("ak") == "closure":
+                        ent = pn.get(r.get("key")) or {}
+                        caps = {i: n for (i, n) in (tuple(x) for x in ent.get("captures", []))}
+                        fs = r.get("fields") or []
+                        if caps and len(fs) == len(caps):
+                            r["fields"] = [caps.get(i, f) for i, f in enumerate(fs)]
         self.adts = {}
         self.consts = {}
         self.impls = []
